@@ -472,7 +472,9 @@ superseded only by an update (of the same key, not older) whose content contains
 def handleInv (f : List String) : String × String × String :=
   match f with
   | [nk, nc, nv, ok, oc, ov, got] =>
-    let names (s : String) : List String := if s == "-" then [] else (s.splitOn ",").map str?
+    -- names are hex encoded (they may contain any character)
+    let names (s : String) : List String := if s == "-" then [] else
+      (s.splitOn ",").map fun h => if h == "~" then "" else String.ofList (((hexDecode h).getD []).map fun b => Char.ofNat b.toNat)
     match nv.toNat?, ov.toNat? with
     | some nv, some ov =>
       let m := invalidates nk (names nc) nv ok (names oc) ov
